@@ -10,7 +10,10 @@ import time
 VERIF = os.path.dirname(os.path.dirname(os.path.abspath(__file__)))
 REPO = os.environ.get("VERIF_REPO", "/repo")
 TARGET = os.path.join(VERIF, ".target")
-WORK = os.path.join(VERIF, ".work")
+ALT = "" if REPO == "/repo" else "alt-" + hashlib.sha256(REPO.encode()).hexdigest()[:10]
+# scratch; runs against a scratch copy of the repository (VERIF_REPO) get their own subtree so that
+# they can run in parallel and never touch the evidence of the real tree
+WORK = os.path.join(VERIF, ".work", ALT) if ALT else os.path.join(VERIF, ".work")
 
 
 class Inconclusive(Exception):
@@ -113,7 +116,7 @@ def _driver_dir():
     if REPO == "/repo":
         return src, ""
     tag = hashlib.sha256(REPO.encode()).hexdigest()[:10]
-    d = os.path.join(WORK, "drv-" + tag)
+    d = os.path.join(VERIF, ".work", "drv-" + tag)
     os.makedirs(d, exist_ok=True)
     man = open(os.path.join(src, "Cargo.toml")).read().replace('path = "/repo"', 'path = "%s"' % REPO)
     with open(os.path.join(d, "Cargo.toml"), "w") as f:
